@@ -28,7 +28,7 @@ META = {
                   "which special method an operation needs). CPython's object model is the oracle, not modelled.",
     "technique": "Coq proof (finite case analysis over generated routing/handler tables, induction over operation sequences with an abstract object "
                  "semantics, induction on remaining items for the chunk schedule) + differential proxy/twin execution with wire-trace validation",
-    "gen": ["netref", "consts", "protocol"],
+    "gen": ["netref", "consts", "protocol", "attrpolicy"],
     "shapes": ["netref.*"],
     "models": ["proxyops"],
     "model_files": ["ProxyOps"],
